@@ -294,6 +294,10 @@ func (x *g) sharedTypes() {
 		x.f.Messages = append(x.f.Messages, it)
 		other := &spec.Message{Name: "Other", Fields: []*spec.Field{{Name: "text", Number: 1, Kind: "string"}, {Name: "num", Number: 2, Kind: "int32"}}}
 		x.f.Messages = append(x.f.Messages, other)
+		// a message whose fields are all singular messages, two levels deep
+		x.f.Messages = append(x.f.Messages,
+			&spec.Message{Name: "Pair", Fields: []*spec.Field{{Name: "left", Number: 1, Kind: "message", TypeName: x.fq("Item")}, {Name: "right", Number: 2, Kind: "message", TypeName: x.fq("Other")}}},
+			&spec.Message{Name: "Envelope", Fields: []*spec.Field{{Name: "pair", Number: 1, Kind: "message", TypeName: x.fq("Pair")}, {Name: "extra", Number: 2, Kind: "message", TypeName: x.fq("Pair")}}})
 	}
 	if x.has(FRecursive) {
 		n := &spec.Message{Name: "Node", Fields: []*spec.Field{{Name: "name", Number: 1, Kind: "string"},
@@ -359,7 +363,7 @@ func (x *g) bodyField(m *spec.Message, taken map[string]bool, num int32) *spec.F
 		opts = append(opts, func() { f.Kind = "enum"; f.TypeName = x.fq("Color") })
 	}
 	if x.has(FNested) {
-		opts = append(opts, func() { f.Kind = "message"; f.TypeName = x.fq("Item") })
+		opts = append(opts, func() { f.Kind = "message"; f.TypeName = x.fq(pick(x.r, []string{"Item", "Item", "Envelope", "Pair"})) })
 	}
 	if x.has(FRecursive) {
 		opts = append(opts, func() { f.Kind = "message"; f.TypeName = x.fq("Node") })
